@@ -171,7 +171,10 @@ def m_c05(ex):
 
 def c06_key(ex):
     t, fn, where, msg = ex.exc
-    return f"C06|{ex.scn['opt']}|{t}|{fn}|{msg_token(msg)}"
+    who = ex.scn['opt']
+    if where.startswith('abstract.py') and fn in ('__should_stop__', '__error_check__'):
+        who = 'OptimizationAbstract'       # base-class stop rule: the optimizer is irrelevant
+    return f"C06|{who}|{t}|{fn}|{msg_token(msg)}"
 
 
 def m_c06(ex):
